@@ -410,7 +410,7 @@ pub(crate) fn add_str_format<W, R, T>(
             if specs.fill_specs.is_none(){
                 return Ok(a0.into());
             }
-            if let Some(FillSpecs{alignment: Some(Alignment::RightWithSign), ..}) = specs.fill_specs{
+            if let Some(FillSpecs{alignment: Some(Alignment::RightWithSign), ..} | FillSpecs{alignment: None, zero_pad: true, ..}) = specs.fill_specs{
                 return xerr(ManagedXError::new("str cannot be formatted with sign-sensitivity", rt)?);
             }
 
